@@ -121,6 +121,16 @@ CHECKS = {
               'over five (rtol, atol) settings incl. an asymmetric one, equal_default/allclose_default and MultiTensor.allclose with absent blocks are '
               'compared with torch.equal/torch.allclose on operands densified by index arithmetic of our own.'),
         design_ref='DESIGN.md §4 C13'),
+    'C09': dict(
+        technique='boundary monitor on Semiring.solve/PatternedTensor.solve/multi_solve/multi_mv vs series-definition oracle with divergence classification; argument snapshot + Tensor._version monitor; hooks on solve_thunks and _order_nonterminals (runtime monitoring)',
+        text=('Runtime monitoring: dense n x n systems (n <= 6) in the convergent, exactly-one (stochastic), divergent and infinite-entry classes, '
+              'PatternedTensor.solve with typed sparsity patterns on both operands, and block systems over every presence pattern of a 3x3 block '
+              'structure (512, exhaustive over structure) plus random 4x4 ones, with block shapes (), (k,), (k,l), dense or patterned blocks, '
+              'absent diagonal blocks, both transposes, in 4 semirings. Results are compared with the least solution computed from the series '
+              'definition (support-graph reachability + per-SCC spectral radius decide where the sum diverges, Kleene iteration elsewhere; '
+              'longest path for Viterbi, reachability for Bool); multi_mv with the dense product; arguments are snapshotted (bytes and _version). '
+              'Hooks count LU-accepted vs Gauss-Jordan-fallback runs and the distinct elimination orders. One open finding (critical systems).'),
+        design_ref='DESIGN.md §4 C09'),
 }
 
 NOT_BUILT = {}
